@@ -340,15 +340,25 @@ static void history(int steps, int containers_only) {
         op_end("Load", 0, 0, 0, 0, id_of(it));
         break;
       }
-      case 18: { /* serialize: pure with respect to the heap */
+      case 18: { /* serialize: pure with respect to the heap, whether or not the buffer is large enough */
         int x = pick(NULL);
         if (x < 0 || !complete(H[x].p)) break;
         long ix = id_of(H[x].p);
         unsigned char* b = NULL;
         size_t bs = 0;
         op_begin();
-        size_t w = cbor_serialize_alloc(H[x].p, &b, &bs);
-        if (b) va_free(b);
+        size_t w;
+        if (vh_randn(2)) {
+          w = cbor_serialize_alloc(H[x].p, &b, &bs);
+          if (b) va_free(b);
+        } else {
+          /* a fixed buffer of every size from 0 to the full size: the usual "try a small buffer first" pattern */
+          static unsigned char fixed[1 << 16];
+          size_t full = cbor_serialized_size(H[x].p);
+          size_t n = full < sizeof fixed ? vh_randn(full + 1) : sizeof fixed;
+          w = cbor_serialize(H[x].p, fixed, n);
+          if (n < full) w = 1; /* (refusal is the correct answer there; the heap must be untouched either way) */
+        }
         op_end("Serialize", ix, 0, 0, 0, w > 0);
         break;
       }
